@@ -941,6 +941,8 @@ Proof.
     + (* neither: the prefix does not hold *)
       apply explore_false in ET. apply explore_false in EF. rewrite holds_cons in ET, EF.
       apply Post_skip. destruct (holds tr); [|reflexivity]. destruct t; cbn in ET, EF; congruence.
+  - (* SExtCode *)
+    eapply IHs; eassumption.
   - (* SCall *)
     apply (h_call_post feas kd to v rsz c hs ob tr lg H k0 kp Rd _ (fun c' st' => mexec s1 c' st' [] None)
              _ (fun st' ob' l' => mexec s2 c st' ob' l')); auto.
